@@ -775,7 +775,7 @@ pub fn judge(base: &numbat::Context, env: &Env, e: &E) -> Result<&'static str, S
     let mut ctx = base.clone();
     let src = e.render();
     let t0 = std::time::Instant::now();
-    let got = run(&mut ctx, &src);
+    let got = watch::watched("C09", "expr", &src, || run(&mut ctx, &src));
     if t0.elapsed().as_secs_f64() > 1.0 {
         eprintln!("[C09] slow ({:.1}s): {src}", t0.elapsed().as_secs_f64());
     }
